@@ -37,7 +37,7 @@ func bBoundsDoc(th bool) string {
 	ll, sl, lo, hi, st := bBounds(th)
 	return fmt.Sprintf("lists of length 0..%d as []interface{} of ints / of strings / mixed with null, []int, []string, [N]int and as list literals; strings of length 0..%d over {a, é, 日, 😀} "+
 		"as context value and as literal; range(a,b) and range(a,b,s) for a,b in [%d,%d], |s| <= %d with sign(s)=sign(b-a) or a=b, arguments as literals and as context integers; "+
-		"empty and non-iterable values (null, empty map, 5, 1.5, true) for the else branch; each x {value, key+value header} x {no else, else} x {top level, inside a two-pass outer loop, over a variable assigned by set}", ll, sl, lo, hi, st)
+		"empty and non-iterable values (null, empty map, 5, 1.5, true) for the else branch; each x {value, key+value header} x {no else, else} x {top level, inside a two-pass outer loop, over a variable assigned by set, with an empty body, and (non-empty lists) through |reverse}", ll, sl, lo, hi, st)
 }
 
 func bBounds(th bool) (listLen, strLen, lo, hi, maxStep int) {
@@ -183,9 +183,20 @@ func bCase(q seqSpec, withKey, withElse bool, wrap int) (src string, ctx map[str
 		pre = "{% set sq = " + expr + " %}"
 		expr = "sq"
 	}
+	elems := q.elems
+	if wrap == 4 { // the sequence goes through a filter (ForNode has a separate path for that); reverse itself is C19's business
+		expr += "|reverse"
+		elems = make([]string, len(q.elems))
+		for i, e := range q.elems {
+			elems[len(elems)-1-i] = e
+		}
+	}
 	hdr, body := "v", bBody+":{{ v }}]"
 	if withKey {
 		hdr, body = "k, v", bBody+":{{ k }}={{ v }}]"
+	}
+	if wrap == 3 { // empty body
+		body = ""
 	}
 	loop := "{% for " + hdr + " in " + expr + " %}" + body
 	if withElse {
@@ -194,18 +205,21 @@ func bCase(q seqSpec, withKey, withElse bool, wrap int) (src string, ctx map[str
 	loop += "{% endfor %}"
 	n := len(q.elems)
 	w := ""
-	for i, e := range q.elems {
+	for i, e := range elems {
 		w += bIter(i, n) + ":"
 		if withKey {
 			w += itoa(i) + "="
 		}
 		w += e + "]"
 	}
+	if wrap == 3 {
+		w = ""
+	}
 	if n == 0 && withElse {
 		w = "EMPTY"
 	}
 	switch wrap {
-	case 0, 2:
+	case 0, 2, 3, 4:
 		return pre + "<" + loop + ">", ctx, "<" + w + ">"
 	default:
 		// inside an outer loop of two passes; the outer loop prints its own counters before and after
@@ -224,7 +238,13 @@ func runB(t *vlib.T) {
 		q := q
 		for _, withKey := range []bool{false, true} {
 			for _, withElse := range []bool{false, true} {
-				for wrap := 0; wrap < 3; wrap++ {
+				for wrap := 0; wrap < 5; wrap++ {
+					if wrap == 3 && withKey {
+						continue
+					}
+					if wrap == 4 && !(q.kind == "list" || q.kind == "typed" || q.kind == "literal") {
+						continue
+					}
 					withKey, withElse, wrap := withKey, withElse, wrap
 					key := fmt.Sprintf("B/%s/k%v/e%v/w%d", q.id, withKey, withElse, wrap)
 					t.Case(key, func() *vlib.Outcome {
